@@ -24,12 +24,15 @@ import PdfModel.Model.Parser
 
 namespace PdfLex
 
+/-- the ASCII digit for `n < 10` -/
+def digitByte (n : Nat) : UInt8 := UInt8.ofNat (48 + n)
+
 /-- decimal digits of `n`, most significant first (`fuel` > number of digits) -/
 def natDigitsAux : Nat → Nat → List UInt8 → List UInt8
   | 0, _, acc => acc
   | fuel + 1, n, acc =>
-    if n < 10 then UInt8.ofNat (48 + n) :: acc
-    else natDigitsAux fuel (n / 10) (UInt8.ofNat (48 + n % 10) :: acc)
+    if n < 10 then digitByte n :: acc
+    else natDigitsAux fuel (n / 10) (digitByte (n % 10) :: acc)
 
 /-- `format!("{}", n)` for an unsigned integer -/
 def fmtNat (n : Nat) : List UInt8 := natDigitsAux (n + 1) n []
